@@ -35,7 +35,12 @@ BLOCKS = ["para", "inline", "bullets", "ordered", "literal", "doctest", "heading
 NB = len(BLOCKS)
 FIELDS = ["param", "return", "raises", "note"]
 LITERAL_LINES = ["lit <tag> & \"q\"  two  spaces", "  deeper *not bold* L{x} `y`", "back\\slash @notfield: :nofield:"]
-DOCTEST_LINES = [">>> print('<b>' + \"&\")", "<b>&"]
+# one line per token class of the doctest colorizer (prompt, continuation, decorator, def / async def / class with its name, keyword, builtin, string,
+# comment, output, traceback): every one must come back character for character
+DOCTEST_LINES = [">>> print('<b>' + \"&\")", "<b>&",
+                 ">>> @deco(1)", "... async def fetch_rows(conn, n=1):  # comment <x> & more", "...     return await conn.get('a\"b') + len(\"t&q\")",
+                 ">>> class Kx(Base): pass", ">>> def plain_fn(a): return None", ">>> raise ValueError(\"boom\")",
+                 "Traceback (most recent call last):", "ValueError: boom"]
 
 
 def block(kind, n, fmt):
